@@ -173,6 +173,113 @@ func (h *History) fillReflect(dst protoreflect.Message, av protoreflect.Message)
 	}
 }
 
+// BuildMorph first builds ANOTHER value (from) through the reflection API and
+// then turns the message into the target value with the operations an owner
+// would use (Clear, Truncate, per-key map edits, Set, Mutable): whatever such a
+// life leaves behind in the struct - emptied containers that keep their
+// storage, switched oneofs, re-used nested messages - is part of the history.
+func (h *History) BuildMorph(from, av protoreflect.Message, mt protoreflect.MessageType) (m proto.Message, err error) {
+	defer func() {
+		if r := recover(); r != nil {
+			err = fmt.Errorf("morph build panicked: %v", r)
+		}
+	}()
+	dst := mt.New()
+	h.fillReflect(dst, from)
+	h.morph(dst, av)
+	return dst.Interface(), nil
+}
+
+func (h *History) morph(dst protoreflect.Message, av protoreflect.Message) {
+	for _, fd := range sortedFields(av.Descriptor()) {
+		dfd := dstField(dst, fd)
+		if !av.Has(fd) {
+			if !dst.Has(dfd) {
+				continue
+			}
+			switch {
+			case fd.IsList() && h.T.Chance("morph-truncate", 1, 2):
+				dst.Mutable(dfd).List().Truncate(0)
+			case fd.IsMap() && h.T.Chance("morph-delete-keys", 1, 2):
+				mp := dst.Mutable(dfd).Map()
+				for _, k := range SortedMapKeys(dfd, mp) {
+					mp.Clear(k)
+				}
+			default:
+				dst.Clear(dfd)
+			}
+			continue
+		}
+		v := av.Get(fd)
+		switch {
+		case fd.IsMap():
+			mp := dst.Mutable(dfd).Map()
+			src := v.Map()
+			for _, k := range SortedMapKeys(dfd, mp) {
+				if !src.Has(k) {
+					mp.Clear(k)
+				}
+			}
+			for _, k := range SortedMapKeys(fd, src) {
+				if fd.MapValue().Kind() == protoreflect.MessageKind {
+					if mp.Has(k) && mp.Get(k).Message().IsValid() && h.T.Chance("morph-reuse-value", 1, 2) {
+						h.morph(mp.Mutable(k).Message(), src.Get(k).Message())
+						continue
+					}
+					nv := mp.NewValue()
+					h.fillReflect(nv.Message(), src.Get(k).Message())
+					mp.Set(k, nv)
+				} else {
+					mp.Set(k, cloneValue(fd.MapValue(), src.Get(k)))
+				}
+			}
+		case fd.IsList():
+			l := dst.Mutable(dfd).List()
+			src := v.List()
+			if l.Len() > src.Len() {
+				l.Truncate(src.Len())
+			}
+			for i := 0; i < src.Len(); i++ {
+				if fd.Kind() == protoreflect.MessageKind {
+					if i < l.Len() && h.T.Chance("morph-reuse-elem", 1, 2) {
+						h.morph(l.Get(i).Message(), src.Get(i).Message())
+						continue
+					}
+					e := l.NewElement()
+					h.fillReflect(e.Message(), src.Get(i).Message())
+					if i < l.Len() {
+						l.Set(i, e)
+					} else {
+						l.Append(e)
+					}
+				} else if i < l.Len() {
+					l.Set(i, cloneValue(fd, src.Get(i)))
+				} else {
+					l.Append(cloneValue(fd, src.Get(i)))
+				}
+			}
+		case fd.Kind() == protoreflect.MessageKind:
+			if dst.Has(dfd) && h.T.Chance("morph-reuse-msg", 1, 2) {
+				h.morph(dst.Mutable(dfd).Message(), v.Message())
+			} else {
+				dst.Clear(dfd)
+				h.fillReflect(dst.Mutable(dfd).Message(), v.Message())
+			}
+		default:
+			dst.Set(dfd, cloneValue(fd, v))
+		}
+	}
+	if u := av.GetUnknown(); len(u) > 0 {
+		dst.SetUnknown(append(protoreflect.RawFields{}, u...))
+	} else if len(dst.GetUnknown()) > 0 || h.EmptyUnknown {
+		if h.T.Chance("morph-unknown-empty", 1, 2) {
+			dst.SetUnknown(protoreflect.RawFields{})
+		} else {
+			dst.SetUnknown(nil)
+		}
+	}
+}
+
 // overfill appends extra elements and truncates the list back to n.
 func (h *History) overfill(l protoreflect.List, fd protoreflect.FieldDescriptor, n int) {
 	extra := 1 + h.T.Draw("overfill-n", 3)
